@@ -14,6 +14,7 @@ import (
 	"testing"
 
 	"github.com/whatap/golib/config"
+	"github.com/whatap/golib/config/conffile"
 	"pgregory.net/rapid"
 	"verif/pbt"
 )
@@ -34,7 +35,27 @@ type HStep struct {
 	// Replace > 0: before this step a new observer is registered under the name of observer number Replace-1 (a
 	// component that was re-created registers again): from now on it is notified, the one it replaced is not
 	Replace int `json:"replace,omitempty"`
+	// During (with Edit and Reloads >= 1): a further version reaches the disk while the first reload of this step is
+	// going on - after the reload has read the file, before it returns (an editor saving twice, a deploy tool racing the
+	// poll). One more reload is then issued; after it the configuration must show this version
+	During *File `json:"during,omitempty"`
 }
+
+// hookParser is the stock parser plus a one-shot callback that runs right after the file was read.
+type hookParser struct {
+	inner conffile.FileParser
+	after func()
+}
+
+func (h *hookParser) Read(p string) (map[string]string, error) {
+	m, err := h.inner.Read(p)
+	if f := h.after; f != nil {
+		h.after = nil
+		f()
+	}
+	return m, err
+}
+func (h *hookParser) Write(p string, m *map[string]string) error { return h.inner.Write(p, m) }
 
 type HCase struct {
 	BaseNs    int64    `json:"base_ns"`           // nanosecond field of the first modification time
@@ -106,6 +127,10 @@ func drawHistory(t *rapid.T) HCase {
 		if i == n-1 && s.Reloads == 0 {
 			s.Reloads = 1
 		}
+		if s.Edit != nil && s.Reloads >= 1 && rapid.IntRange(0, 4).Draw(t, "during?") == 0 {
+			f := genFile(t, pool, 8, true)
+			s.During = &f
+		}
 		s.Def = genDefaults().Draw(t, "def")
 		c.Steps = append(c.Steps, s)
 	}
@@ -115,7 +140,7 @@ func drawHistory(t *rapid.T) HCase {
 func runHistory(c HCase) *pbt.Result {
 	files := []*File{c.Initial}
 	for i := range c.Steps {
-		files = append(files, c.Steps[i].Edit)
+		files = append(files, c.Steps[i].Edit, c.Steps[i].During)
 	}
 	for _, f := range files {
 		if f != nil {
@@ -181,7 +206,8 @@ func runHistory(c HCase) *pbt.Result {
 	} else {
 		classes["no-file-at-construction"] = true
 	}
-	fc := newConf(home, ob)
+	hook := &hookParser{inner: conffile.NewDefaultFileParser()}
+	fc := newConf(home, ob, conffile.WithParser(hook))
 	defer fc.Destroy()
 	var conf config.Config = fc
 
@@ -269,6 +295,30 @@ func runHistory(c HCase) *pbt.Result {
 			}
 			setExpect(s.Edit.kvs())
 		}
+		if s.During != nil && s.Edit != nil && s.Reloads >= 1 {
+			classes["edit-lands-while-a-reload-is-reading"] = true
+			hook.after = func() {
+				clock += 1 + s.DNs%1000
+				if err := writeAt(path, s.During.render(), clock); err != nil {
+					panic(err)
+				}
+			}
+			fc.ReloadNowForVerif()
+			if hook.after != nil {
+				return pbt.Fail("step %d: a version with a new modification time was on disk but the reload did not read the file", i)
+			}
+			for _, o := range observers {
+				if o.bad != "" {
+					return pbt.Fail("step %d (reload overtaken by an edit): %s", i, o.bad)
+				}
+				o.calls = 0
+			}
+			// the file has stopped changing now: the next poll has to pick the latest version up
+			text := s.Edit.render()
+			loadedText = &text
+			current, pending, unseenEdits = s.During, true, 1
+			setExpect(s.During.kvs())
+		}
 		for r := 0; r < s.Reloads; r++ {
 			fc.ReloadNowForVerif()
 			if err := afterLoad(fmt.Sprintf("step %d reload %d", i, r), s.Def); err != nil {
@@ -292,7 +342,7 @@ func runHistory(c HCase) *pbt.Result {
 
 var historySpec = pbt.Register(pbt.Spec[HCase]{
 	Prop: "C18", Name: "config-histories",
-	Rule:  "history = optional initial file, then 1-6 steps of (new version of the file with a modification time dsec seconds + dns nanoseconds after the previous one | no edit) followed by 0-2 reloads; one step in six (from the second on) first registers a new observer under the name of an existing one, which from then on is notified in its place; one step in twelve moves the file away (reload: fall-back to the built-in defaults) and the next one brings a version back, half of the time carrying the modification time the file had before it was moved away; after every reload every non-empty key=value of the current version must be returned by GetValue/GetValueDef (trimmed) and by GetBoolean/GetInt/GetLong/GetFloat/GetIntSet/GetStringArray (strconv on the trimmed value, else the drawn default), two keys never in the file must yield the defaults, and each of 0-3 observers must have been called exactly once per changed version with the new values already visible inside the callback; non-trivial = at least one version written in the same second as the previous version",
+	Rule:  "history = optional initial file, then 1-6 steps of (new version of the file with a modification time dsec seconds + dns nanoseconds after the previous one | no edit) followed by 0-2 reloads; in one edit step in five a further version reaches the disk while the reload is reading the file (hooked parser: after the read, before the reload returns) and one more reload must bring that version in; one step in six (from the second on) first registers a new observer under the name of an existing one, which from then on is notified in its place; one step in twelve moves the file away (reload: fall-back to the built-in defaults) and the next one brings a version back, half of the time carrying the modification time the file had before it was moved away; after every reload every non-empty key=value of the current version must be returned by GetValue/GetValueDef (trimmed) and by GetBoolean/GetInt/GetLong/GetFloat/GetIntSet/GetStringArray (strconv on the trimmed value, else the drawn default), two keys never in the file must yield the defaults, and each of 0-3 observers must have been called exactly once per changed version with the new values already visible inside the callback; non-trivial = at least one version written in the same second as the previous version",
 	Quick: 6000, Thorough: 600000,
 	Draw: drawHistory, Run: runHistory,
 })
